@@ -245,7 +245,11 @@ func (S) RunTape(t *sim.Tape, st *sim.Stats, keepLog bool) *sim.Outcome {
 	total := 0
 	for ti := 0; ti < nW+nR; ti++ {
 		var ops []op
-		for total < 8 && len(ops) < 4 && t.Begin("op", 75) {
+		maxOps, cont := 4, 75
+		if ti >= nW {
+			maxOps, cont = 8, 90 // readers poll: most interesting reads happen while or after writers work
+		}
+		for total < 14 && len(ops) < maxOps && t.Begin("op", cont) {
 			var p op
 			p.key = t.Choice(nkeys, "op.key")
 			if ti < nW {
